@@ -17,6 +17,7 @@ SIGMA = ["a", "/", "~", "0", "1", "+", "-", "#", "_", " ", "é", "²", "\ud800",
 SHAPE = P.get("shape", 0)
 SENTINEL = ["default"]
 TARGET = P.get("target")
+FORM = P.get("form")
 
 
 def _doc_with_obj(t: str, v: Any, shape: int) -> Any:
@@ -277,3 +278,44 @@ def options_history(ti: int, ue1: bool, uri1: bool, v: int, second_uri: bool) ->
     except JSONPointerError as e:
         return ok(why(False, "decoding-off pointer does not resolve after an earlier parse of the same text", text, ue1, uri1, str(e)))
     return ok(why(_is_node(got, v), "resolved to another value", text, ue1, uri1, second_uri, got))
+
+
+LEADS = ["", " ", "\n", "\t\r\n "]
+FTEXTS = ['{"a": [1, {"b": 2}], "": {"~": 3, "/": [4]}}', '[{"a": 1}, [2, 3], "s"]', '"just text"']
+FPTRS = ["", "/a/1/b", "//~1/0", "/0/a", "/2", "/zz"]
+
+
+def forms(di: int, pi: int, li: int, form: int, indent: bool) -> bool:
+    """The document as JSON text (blank-space-led or not, compact or indented), text file or binary file: resolve and exists
+    agree with resolution against the parsed document.
+
+    pre: 0 <= di < len(FTEXTS) and 0 <= pi < len(FPTRS) and 0 <= li < len(LEADS)
+    pre: 0 <= form <= 2 and (FORM is None or form == FORM)
+    post: _
+    """
+    import io
+    import json
+
+    parsed = json.loads(pick(FTEXTS, di))
+    text = pick(LEADS, li) + json.dumps(parsed, indent=2 if indent else None) + ("\n" if indent else "")
+    p = JSONPointer(pick(FPTRS, pi), unicode_escape=False)
+
+    def mk() -> Any:
+        if form == 0:
+            return text
+        if form == 1:
+            return io.StringIO(text)
+        return io.BytesIO(text.encode("utf-8"))
+
+    try:
+        exp = ("ok", p.resolve(parsed))
+    except JSONPointerResolutionError as e:
+        exp = ("err", type(e).__name__)
+    try:
+        got = ("ok", p.resolve(mk()))
+    except JSONPointerResolutionError as e:
+        got = ("err", type(e).__name__)
+    if isinstance(parsed, str) and form == 0:
+        return ok(True)  # a bare JSON string given as text: documented as ambiguous (taken as the string itself when it does not parse)
+    return ok(why(got == exp, "resolution against a document form differs from the parsed document", form, text, str(p), got, exp)
+              and why(p.exists(mk()) == (exp[0] == "ok"), "exists on a document form", form, text, str(p)))
